@@ -254,6 +254,147 @@ static void crc_all(bool thorough)
 }
 
 // ---------------------------------------------------------------- hashes
+// ---------------------------------------------------------------- table objects that are re-initialised
+// One table object per width goes through a history: built MSB-first, rebuilt LSB-first with the same generator, wiped by the caller and
+// built again, rebuilt MSB-first, rebuilt with another generator and back.  After every step all 256 entries must be the remainders for
+// the generator and bit order just requested (a builder that remembers what it built last must not skip a rebuild).
+static void reuse_all(bool thorough)
+{
+    uint64_t n = 0, nt = 0, job = 1u << 20;
+    for (int w = 8; w <= 64; w *= 2)
+    {
+        std::vector<uint64_t> ps = polys(w, thorough);
+        for (size_t pi = 0; pi < ps.size(); ++pi)
+        {
+            if (!R.shard.mine(job++)) { continue; }
+            static Tab T; // one object: the same storage in every step
+            uint64_t poly = ps[pi], other = ps[(pi + 1) % ps.size()];
+            struct Step { int msb; uint64_t poly; bool wipe; } steps[] = {{1, poly, false}, {0, poly, false}, {0, poly, true}, {1, poly, false}, {1, poly, true}, {1, other, false}, {1, poly, false}, {0, other, false}, {0, poly, false}};
+            int k = 0;
+            for (const Step &st : steps)
+            {
+                if (st.wipe) { memset(&T, 0x5A, sizeof T); }
+                init(T, w, st.msb != 0, st.poly);
+                for (int c = 0; c < 256; ++c)
+                {
+                    unsigned char b = (unsigned char)c;
+                    uint64_t want = st.msb ? ref_m(w, st.poly, &b, 1, 0) : ref_l(w, st.poly, &b, 1, 0);
+                    ++n; nt += c != 0;
+                    if (entry(T, w, c) != want)
+                    {
+                        R.viol(nm(w, st.msb != 0) + "|table-rebuilt", nm(w, st.msb != 0) + "_init on a table object that was used before (step " + std::to_string(k) + " of: m, l, wipe+l, m, wipe+m, m other generator, m, l other generator, l): entry " + std::to_string(c) + " for polynomial " + grid::hex(st.poly) + " is not the remainder of the one-byte message",
+                               "{\"width\":" + std::to_string(w) + ",\"poly\":" + grid::hex(st.poly) + ",\"step\":" + std::to_string(k) + "}");
+                        break;
+                    }
+                }
+                ++k;
+            }
+        }
+    }
+    R.part("table objects re-initialised in place: bit order switched with the same generator, storage wiped between two identical builds, generator changed and changed back; all 256 entries after each of 9 steps, every generator of every width", n, nt);
+}
+
+// ---------------------------------------------------------------- the same buffer hashed again after an in-place edit
+// straight-line code through opaque pointers, compiled with optimisation: every call reads the bytes as they are at that moment
+// (a declaration that promises the compiler the result does not depend on memory lets it reuse the first result)
+static __attribute__((noinline)) void rehash_inplace(unsigned char *p, size_t n, uint32_t v0, uint32_t *out)
+{
+    out[0] = a_hash_bkdr_(p, n, v0);
+    out[1] = a_hash_sdbm_(p, n, v0);
+    out[2] = a_hash_bkdr(p, v0);
+    out[3] = a_hash_sdbm(p, v0);
+    p[0] ^= 0x21;
+    out[4] = a_hash_bkdr_(p, n, v0);
+    out[5] = a_hash_sdbm_(p, n, v0);
+    out[6] = a_hash_bkdr(p, v0);
+    out[7] = a_hash_sdbm(p, v0);
+    p[n - 1] = (unsigned char)(p[n - 1] + 3);
+    out[8] = a_hash_bkdr_(p, n, v0);
+    out[9] = a_hash_sdbm_(p, n, v0);
+    out[10] = a_hash_bkdr(p, v0);
+    out[11] = a_hash_sdbm(p, v0);
+}
+static __attribute__((noinline)) void recrc_inplace(a_u32 *t32, a_u64 *t64, a_u8 *t8, a_u16 *t16, unsigned char *p, size_t n, uint64_t *out)
+{
+    out[0] = a_crc32m(t32, p, n, 0); out[1] = a_crc32l(t32, p, n, 0); out[2] = a_crc64m(t64, p, n, 0); out[3] = a_crc64l(t64, p, n, 0);
+    out[4] = a_crc8(t8, p, n, 0); out[5] = a_crc16m(t16, p, n, 0); out[6] = a_crc16l(t16, p, n, 0);
+    p[1] ^= 0x40;
+    out[7] = a_crc32m(t32, p, n, 0); out[8] = a_crc32l(t32, p, n, 0); out[9] = a_crc64m(t64, p, n, 0); out[10] = a_crc64l(t64, p, n, 0);
+    out[11] = a_crc8(t8, p, n, 0); out[12] = a_crc16m(t16, p, n, 0); out[13] = a_crc16l(t16, p, n, 0);
+    t32[5] ^= 0x10; t64[5] ^= 0x10; t8[5] ^= 0x10; t16[5] ^= 0x10; // the table is data too: p[0] == 5 selects the edited entry
+    out[14] = a_crc32m(t32, p, n, 0); out[15] = a_crc32l(t32, p, n, 0); out[16] = a_crc64m(t64, p, n, 0); out[17] = a_crc64l(t64, p, n, 0);
+    out[18] = a_crc8(t8, p, n, 0); out[19] = a_crc16m(t16, p, n, 0); out[20] = a_crc16l(t16, p, n, 0);
+}
+static void inplace_all()
+{
+    uint64_t n = 0;
+    if (R.shard.idx != 0) { return; }
+    auto refh = [](uint32_t mul, const unsigned char *p, size_t k, uint32_t v) { for (size_t i = 0; i < k; ++i) { v = v * mul + p[i]; } return v; };
+    for (size_t len = 1; len <= 9; ++len)
+    {
+        for (uint32_t v0 : {0u, 0x9E3779B9u})
+        {
+            unsigned char buf[16], c0[16], c1[16], c2[16];
+            for (size_t i = 0; i < len; ++i) { buf[i] = (unsigned char)(0x41 + 7 * i); }
+            buf[len] = 0;
+            memcpy(c0, buf, 16); memcpy(c1, buf, 16); c1[0] ^= 0x21; memcpy(c2, c1, 16); c2[len - 1] = (unsigned char)(c2[len - 1] + 3);
+            uint32_t out[12];
+            unsigned char *volatile vp = buf;
+            rehash_inplace(vp, len, v0, out);
+            const unsigned char *cs[3] = {c0, c1, c2};
+            for (int st = 0; st < 3; ++st)
+            {
+                size_t sl = strlen((const char *)cs[st]);
+                uint32_t want[4] = {refh(131, cs[st], len, v0), refh(65599, cs[st], len, v0), refh(131, cs[st], sl, v0), refh(65599, cs[st], sl, v0)};
+                for (int f = 0; f < 4; ++f)
+                {
+                    ++n;
+                    if (out[st * 4 + f] != want[f])
+                    {
+                        static const char *FN[4] = {"a_hash_bkdr_", "a_hash_sdbm_", "a_hash_bkdr", "a_hash_sdbm"};
+                        R.viol(std::string(FN[f]) + "|in-place-edit", std::string(FN[f]) + " on a buffer that was edited in place between two calls (same pointer, same length) returned " + grid::hex(out[st * 4 + f]) + " after edit " + std::to_string(st) + ", the bytes hash to " + grid::hex(want[f]), "{\"len\":" + std::to_string(len) + ",\"edit\":" + std::to_string(st) + "}");
+                    }
+                }
+            }
+        }
+    }
+    {
+        static Tab T;
+        init(T, 8, true, 0x07); init(T, 16, true, 0x1021); init(T, 32, true, 0x04C11DB7); init(T, 64, true, 0x42F0E1EBA9EA3693ull);
+        Tab T0 = T, T2 = T;
+        T2.t32[5] ^= 0x10; T2.t64[5] ^= 0x10; T2.t8[5] ^= 0x10; T2.t16[5] ^= 0x10;
+        unsigned char buf[8] = {5, 1, 2, 3, 4, 5, 6, 7}, c0[8], c1[8];
+        memcpy(c0, buf, 8); memcpy(c1, buf, 8); c1[1] ^= 0x40;
+        uint64_t out[21];
+        unsigned char *volatile vp = buf;
+        recrc_inplace(T.t32, T.t64, T.t8, T.t16, vp, 8, out);
+        // reference: the table-driven definition on copies (the table after the edit is no CRC table any more; the functions still fold it)
+        auto fold = [&](const Tab &Q, int f, const unsigned char *p) -> uint64_t {
+            switch (f)
+            {
+            case 0: { a_u32 v = 0; for (int i = 0; i < 8; ++i) { v = Q.t32[(unsigned char)((v >> 24) ^ p[i])] ^ (v << 8); } return v; }
+            case 1: { a_u32 v = 0; for (int i = 0; i < 8; ++i) { v = Q.t32[(unsigned char)(v ^ p[i])] ^ (v >> 8); } return v; }
+            case 2: { a_u64 v = 0; for (int i = 0; i < 8; ++i) { v = Q.t64[(unsigned char)((v >> 56) ^ p[i])] ^ (v << 8); } return v; }
+            case 3: { a_u64 v = 0; for (int i = 0; i < 8; ++i) { v = Q.t64[(unsigned char)(v ^ p[i])] ^ (v >> 8); } return v; }
+            case 4: { a_u8 v = 0; for (int i = 0; i < 8; ++i) { v = Q.t8[(unsigned char)(v ^ p[i])]; } return v; }
+            case 5: { a_u16 v = 0; for (int i = 0; i < 8; ++i) { v = (a_u16)(Q.t16[(unsigned char)((v >> 8) ^ p[i])] ^ (a_u16)(v << 8)); } return v; }
+            default: { a_u16 v = 0; for (int i = 0; i < 8; ++i) { v = (a_u16)(Q.t16[(unsigned char)(v ^ p[i])] ^ (v >> 8)); } return v; }
+            }
+        };
+        static const char *FN[7] = {"a_crc32m", "a_crc32l", "a_crc64m", "a_crc64l", "a_crc8", "a_crc16m", "a_crc16l"};
+        for (int st = 0; st < 3; ++st)
+        {
+            for (int f = 0; f < 7; ++f)
+            {
+                ++n;
+                uint64_t want = fold(st == 2 ? T2 : T0, f, st == 0 ? c0 : c1);
+                if (out[st * 7 + f] != want) { R.viol(std::string(FN[f]) + "|in-place-edit", std::string(FN[f]) + " called again with the same pointers after the " + (st == 2 ? "table" : "message") + " was edited in place returned " + grid::hex(out[st * 7 + f]) + ", the bytes give " + grid::hex(want), "{\"edit\":" + std::to_string(st) + "}"); }
+            }
+        }
+    }
+    R.part("hash and CRC functions called again with the same pointers after the message (and the table) was edited in place, straight-line code at -O2", n, n);
+}
+
 static void hash_all(bool thorough)
 {
     uint64_t n = 0, nt = 0;
@@ -327,6 +468,8 @@ int main(int argc, char **argv)
     bool thorough = R.tier == "thorough";
     return vx::run_contained([&] {
         crc_all(thorough);
+        reuse_all(thorough);
+        inplace_all();
         hash_all(thorough);
         R.finish(true, "every listed domain enumerated completely");
     }, 120.0);
